@@ -1,4 +1,6 @@
 """Engine M glue: dump the MIR of /repo's current tree, run tv/c20.py over the straight-line programs of the corpus."""
+import subprocess
+from concurrent.futures import ThreadPoolExecutor
 import glob, json, os, shutil, sys, time, multiprocessing as mp
 from common import *
 sys.path.insert(0, os.path.join(VERIF, "tv"))
@@ -58,7 +60,7 @@ def run_m(res):
     tv_engine.build()
     import gen, tvrun, tv, lang
     mir_path = dump_mir()
-    progs = [p for p in gen.corpus(res.seed, res.tier) if p.meta["family"] in ("F1", "F2", "F8", "F9", "F12") or (p.meta["family"] == "F3" and int(p.meta["name"].split("_")[-1]) < (60 if res.tier == "quick" else 400))
+    progs = [p for p in gen.corpus(res.seed, res.tier) if (p.meta["family"] in ("F1", "F2", "F8", "F9", "F12") and not p.meta["name"].startswith("f2_string")) or (p.meta["family"] == "F3" and int(p.meta["name"].split("_")[-1]) < (60 if res.tier == "quick" else 400))
              or p.meta["name"].startswith(("f4_i32_sum", "f4_u8_sum", "f4_i32_nested", "f4_i32_early", "f4_i32_else_if", "f4_u16_else_if", "f4_i32_many", "f4_i64_if_value"))]
     shutil.rmtree(tvrun.WORK, ignore_errors=True)
     os.makedirs(os.path.join(tvrun.WORK, "src"))
@@ -100,6 +102,21 @@ def run_m(res):
                            "signature": tv.sig_of(entry), "evaluator": ev, "compiled": real, "solver": f})
         else:
             res.inconclusive.append(f"{r['name']}: solver model {f} not reproduced by the real evaluator/JIT (eval={ev}, jit={real}) - encoder problem")
+    # translator validation (same idea as tv/tvalidate.py): for programs on which the solver found no disagreement the REAL
+    # evaluator and the REAL JIT are run on two concrete argument vectors; "evaluator completes with another value than the
+    # JIT" there means the MIR/CLIF encodings misrepresent the code: not decided (exit 2)
+    import tvalidate
+    v_runs = v_skip = 0
+    v_bad = []
+    todo = [r["name"] for r in ok if not r.get("finding")][:1500]
+    with ThreadPoolExecutor(NCPU) as ex:
+        for name, out_ in ex.map(lambda n: (n, _validate_pair(n, tv, tvalidate)), todo):
+            v_runs += out_[0]
+            v_skip += out_[1]
+            v_bad += [(name, b) for b in out_[2]]
+    for name, b in v_bad[:5]:
+        res.inconclusive.append(f"engine M translator validation: {name}: no disagreement found by the solver, yet the real evaluator completes with {b['eval']} "
+                                f"and the real JIT returns {b['jit']} for {b['args']}: the encoding misrepresents the code - not decided")
     kinds = {}
     for r in ok:
         import c20
@@ -112,6 +129,7 @@ def run_m(res):
         "solver_queries": sum(r["queries"] for r in results), "solver_s": round(sum(r["secs"] for r in results), 1),
         "mir_dump_s": _state.get("dump_s"), "wall_s": round(time.time() - t0, 1),
         "lir_instruction_instances_interpreted": kinds,
+        "translator_validation": {"concrete_runs_real_evaluator_vs_real_jit": v_runs, "skipped_loud_stop_or_trap": v_skip, "mismatches": len(v_bad)},
         "functions_encoded": ["lir::eval::eval (instruction arms Assign/Add/Sub/Mul/Div/Mod/FDiv/IntCmp/FloatCmp/Not/Negate, from the nightly MIR dump of /repo)",
                               "lir::value::IrValue::{eq, as_bool, as_u64, as_i64, as_f64, switch_on}", "pkg.main of each program (emitted CLIF, engine T)"],
         "profiles": ["overflow-checks=on (dev)", "overflow-checks=off (release)"],
@@ -132,6 +150,42 @@ def run_m(res):
     res.cov.setdefault("samples", [])
     res.cov["samples"] += [{"program": r["name"], "source": open(os.path.join(tvrun.WORK, "src", r["name"] + ".roto")).read()[:300], "verdict_per_profile": r["profiles"]} for r in ok[:3]]
     return results
+
+
+def _validate_pair(name, tv, tvalidate):
+    prog = _PROGS[name]
+    entry = [x for x in prog.fns if x.name == "main"][0]
+    vs = tvalidate.vectors(prog, 2)
+    if vs is None:
+        return 0, 0, []
+    import tvrun
+    script = os.path.join(tvrun.WORK, "src", name + ".roto")
+    types = ",".join(t for _, t in entry.params)
+    runs = skipped = 0
+    bad = []
+    for args in vs:
+        try:
+            rc, out, _ = run([tv.EXTRACT, "eval", script, types] + [hex(a) for a in args], timeout=10)
+            ev = json.loads(out.strip().split("\n")[-1]).get("eval")
+            p = subprocess.run([tv.EXTRACT, "run-child", script, "main", tv.sig_of(entry)] + [hex(a) for a in args], capture_output=True, text=True, timeout=10)
+            real = json.loads(p.stdout.strip().split("\n")[-1])
+        except Exception:
+            skipped += 1
+            continue
+        jit = (real.get("out") or {}).get("ret")
+        if ev in (None, "loud-stop", "none", "other") or jit is None or real.get("signal") is not None or jit == "unit":
+            skipped += 1
+            continue
+        runs += 1
+        try:
+            e_i, j_i = int(ev, 16), int(jit, 16)
+        except (TypeError, ValueError):
+            skipped += 1
+            runs -= 1
+            continue
+        if e_i != j_i and not (entry.ret in ("f32", "f64") and tvrun.is_nan_hex(ev) and tvrun.is_nan_hex(jit)):
+            bad.append({"args": [hex(a) for a in args], "eval": ev, "jit": jit})
+    return runs, skipped, bad
 
 
 def run_b(res):
